@@ -32,7 +32,9 @@ MIN_SHARD = 4
 
 VALUES = [I(0), I(7), I(-3), R(2.5), S(""), S("hello world"), S('q"uote'), C("c"), Y("sym"), L([]), L([I(1), I(2), I(3)]), L([R(1.5), R(-2.0)]),
           L([S("ab"), S("cd")]), L([L([I(1)]), L([I(2), I(3)])]), L([I(1), S("a"), Y("k"), L([C("x")])]), D([(S("k"), I(1)), (I(2), L([I(1), I(2)]))]),
-          D([]), L([L([I(1), I(2)]), L([I(3), I(4)])])]
+          D([]), L([L([I(1), I(2)]), L([I(3), I(4)])]),
+          # atoms that are equal to one another as Python values but differ in kind
+          C("a"), Y("a"), S("a"), C("q"), Y("q"), R(1.0), I(1), R(0.0), R(7.0)]
 
 
 def _gen_seq(rng, n):
@@ -41,7 +43,8 @@ def _gen_seq(rng, n):
         r = rng.random()
         v = rng.choice(VALUES)
         if r < 0.2:
-            ops.append(["eval", rng.choice(["1+2", "!5", "\"ab\",\"cd\"", "[1 2 3]*2", ":foo", "1%0", "#\"hello\"", "|[1 2 3]", "[[1 2] [3 4]]@1", ",0cx", ":{[1 2]}", "*[]"])])
+            ops.append(["eval", rng.choice(["1+2", "!5", "\"ab\",\"cd\"", "[1 2 3]*2", ":foo", "1%0", "#\"hello\"", "|[1 2 3]", "[[1 2] [3 4]]@1", ",0cx", ":{[1 2]}", "*[]",
+                                            "0ca", ":a", "\"a\"", "0cq", ":q", "1.0", "1", "7.0", "7", "0.0", "1=1"])])
         elif r < 0.32:
             ops.append(["evalundef", rng.choice(["1%0", "[1 2]?9", ":{[1 2]}?7", "*[1]"])])
         elif r < 0.5:
@@ -82,6 +85,12 @@ def cases(tier, seed):
     n = 350 if tier == "quick" else 7000
     for _ in range(n):
         out.append({"t": "seq", "ops": _gen_seq(rng, rng.randint(2, 8))})
+    # the same spelling sent as a character, a symbol and a string (and equal numbers of different kind) over one connection, in every order
+    import itertools as _it
+    for perm in _it.permutations(["0ca", ":a", "\"a\""]):
+        out.append({"t": "seq", "ops": [["eval", t] for t in perm] + [["eval", perm[0]]]})
+    for perm in _it.permutations(["1", "1.0", "1=1"]):
+        out.append({"t": "seq", "ops": [["eval", t] for t in perm] + [["eval", perm[0]]]})
     # a proxy fetched, the server function re-defined with another arity, the proxy fetched again - all on one connection
     for i in range(len(VARF_BODIES)):
         for j in range(len(VARF_BODIES)):
